@@ -60,14 +60,16 @@ static const int PYTH[6][3] = {{3, 4, 5}, {4, 3, 5}, {5, 12, 13}, {12, 5, 13}, {
 
 // family member number `seed` of size n.  kind (seed%4): 0 = Givens chain, 1 = Householder(s) + Givens,
 // 2 = signed permutation + Householder, 3 = everything
+static int g_detsign = 0;   // sign of det(A) of the last family member (det Q0; R0 has a positive diagonal)
 static inline void make_family(size_t n, unsigned seed, RM& Q0, RM& R0) {
+    int sgn = 1;
     Rng g(seed * 1000003ull + n);
     Q0 = ident(n);
     unsigned kind = seed % 4;
     if (n >= 2) {
         if (kind == 2 || kind == 3) {           // signed permutation
-            for (size_t i = 0; i + 1 < n; ++i) { size_t j = i + g.next() % (n - i); if (j != i) for (size_t c = 0; c < n; ++c) std::swap(Q0[i * n + c], Q0[j * n + c]); }
-            for (size_t i = 0; i < n; ++i) if (g.next() & 1) for (size_t c = 0; c < n; ++c) Q0[i * n + c] = -Q0[i * n + c];
+            for (size_t i = 0; i + 1 < n; ++i) { size_t j = i + g.next() % (n - i); if (j != i) { sgn = -sgn; for (size_t c = 0; c < n; ++c) std::swap(Q0[i * n + c], Q0[j * n + c]); } }
+            for (size_t i = 0; i < n; ++i) if (g.next() & 1) { sgn = -sgn; for (size_t c = 0; c < n; ++c) Q0[i * n + c] = -Q0[i * n + c]; }
         }
         if (kind != 0) {
             int nh = (kind == 3 && n <= 8) ? 2 : 1;
@@ -76,7 +78,7 @@ static inline void make_family(size_t n, unsigned seed, RM& Q0, RM& R0) {
                 bool nz = false;
                 for (size_t i = 0; i < n; ++i) { int r = g.range(0, 5); v[i] = r == 0 ? 0 : (r <= 2 ? 1 : (r <= 4 ? -1 : 2)); nz = nz || v[i]; }
                 if (!nz) v[0] = 1;
-                householder(Q0, n, v);
+                householder(Q0, n, v); sgn = -sgn;
             }
         }
         int ng = kind == 0 ? (int)std::min<size_t>(n - 1, 4) : (kind == 2 ? 0 : 2);
@@ -86,8 +88,9 @@ static inline void make_family(size_t n, unsigned seed, RM& Q0, RM& R0) {
             givens(Q0, n, p, r, py[0], py[1], py[2]);
         }
     } else {
-        if (seed & 1) Q0[0] = Rat(-1);
+        if (seed & 1) { Q0[0] = Rat(-1); sgn = -1; }
     }
+    g_detsign = sgn;
     R0.assign(n * n, Rat(0));
     static const int DN[6] = {1, 2, 3, 1, 3, 5}, DD[6] = {1, 1, 1, 2, 2, 2};
     for (size_t i = 0; i < n; ++i) {
@@ -104,8 +107,11 @@ static void on_abort(int) { siglongjmp(g_jmp, 1); }
 static std::string g_hdr;   // case id + inputs of the running case (survives the longjmp)
 
 // strategies
-enum { S_MGSR = 0, S_MGSR_EXPR = 1, S_PIVV = 2, S_PIVV_EXPR = 3, S_PIVM = 4, S_PIVM_EXPR = 5 };
-static const char* const SNAME[6] = {"mgsr", "mgsr_expr", "pivv", "pivv_expr", "pivm", "pivm_expr"};
+enum { S_MGSR = 0, S_MGSR_EXPR = 1, S_PIVV = 2, S_PIVV_EXPR = 3, S_PIVM = 4, S_PIVM_EXPR = 5,
+       S_MGSR_SUM = 6, S_MGSR_TRANS = 7, S_PIVV_SUM = 8, S_PIVM_TRANS = 9 };
+static const char* const SNAME[10] = {"mgsr", "mgsr_expr", "pivv", "pivv_expr", "pivm", "pivm_expr", "mgsr_sum", "mgsr_trans", "pivv_sum", "pivm_trans"};
+static inline bool is_piv(int S) { return (S >= 2 && S <= 5) || S >= 8; }
+static inline bool is_pmat(int S) { return S == 4 || S == 5 || S == 9; }
 
 template<size_t n, int S> struct call_qr;
 template<size_t n> struct call_qr<n, S_MGSR> { static void go(const Tensor<Rat,n,n>& A, Tensor<Rat,n,n>& Q, Tensor<Rat,n,n>& R, Tensor<size_t,n>&, Tensor<Rat,n,n>&) { qr(A, Q, R); } };
@@ -114,6 +120,16 @@ template<size_t n> struct call_qr<n, S_PIVV> { static void go(const Tensor<Rat,n
 template<size_t n> struct call_qr<n, S_PIVV_EXPR> { static void go(const Tensor<Rat,n,n>& A, Tensor<Rat,n,n>& Q, Tensor<Rat,n,n>& R, Tensor<size_t,n>& P, Tensor<Rat,n,n>&) { qr<QRCompType::MGSRPiv>(A + Rat(0), Q, R, P); } };
 template<size_t n> struct call_qr<n, S_PIVM> { static void go(const Tensor<Rat,n,n>& A, Tensor<Rat,n,n>& Q, Tensor<Rat,n,n>& R, Tensor<size_t,n>&, Tensor<Rat,n,n>& PM) { qr<QRCompType::MGSRPiv>(A, Q, R, PM); } };
 template<size_t n> struct call_qr<n, S_PIVM_EXPR> { static void go(const Tensor<Rat,n,n>& A, Tensor<Rat,n,n>& Q, Tensor<Rat,n,n>& R, Tensor<size_t,n>&, Tensor<Rat,n,n>& PM) { qr<QRCompType::MGSRPiv>(A + Rat(0), Q, R, PM); } };
+
+// lazy arguments that are not "tensor + scalar": a sum of two tensors (A = A1 + A2, A1 small integers) and a
+// transpose (trans(At) with At the transposed input)
+template<size_t n> static inline void split(const Tensor<Rat,n,n>& A, Tensor<Rat,n,n>& A1, Tensor<Rat,n,n>& A2) {
+    for (size_t i = 0; i < n * n; ++i) { A1.data()[i] = Rat((int)((i * 7 + 3) % 5) - 2); A2.data()[i] = A.data()[i] - A1.data()[i]; } }
+template<size_t n> static inline Tensor<Rat,n,n> transposed(const Tensor<Rat,n,n>& A) { Tensor<Rat,n,n> B; for (size_t i = 0; i < n; ++i) for (size_t j = 0; j < n; ++j) B(i, j) = A(j, i); return B; }
+template<size_t n> struct call_qr<n, S_MGSR_SUM> { static void go(const Tensor<Rat,n,n>& A, Tensor<Rat,n,n>& Q, Tensor<Rat,n,n>& R, Tensor<size_t,n>&, Tensor<Rat,n,n>&) { Tensor<Rat,n,n> A1, A2; split(A, A1, A2); qr(A1 + A2, Q, R); } };
+template<size_t n> struct call_qr<n, S_MGSR_TRANS> { static void go(const Tensor<Rat,n,n>& A, Tensor<Rat,n,n>& Q, Tensor<Rat,n,n>& R, Tensor<size_t,n>&, Tensor<Rat,n,n>&) { Tensor<Rat,n,n> At = transposed(A); qr(trans(At), Q, R); } };
+template<size_t n> struct call_qr<n, S_PIVV_SUM> { static void go(const Tensor<Rat,n,n>& A, Tensor<Rat,n,n>& Q, Tensor<Rat,n,n>& R, Tensor<size_t,n>& P, Tensor<Rat,n,n>&) { Tensor<Rat,n,n> A1, A2; split(A, A1, A2); qr<QRCompType::MGSRPiv>(A1 + A2, Q, R, P); } };
+template<size_t n> struct call_qr<n, S_PIVM_TRANS> { static void go(const Tensor<Rat,n,n>& A, Tensor<Rat,n,n>& Q, Tensor<Rat,n,n>& R, Tensor<size_t,n>&, Tensor<Rat,n,n>& PM) { Tensor<Rat,n,n> At = transposed(A); qr<QRCompType::MGSRPiv>(trans(At), Q, R, PM); } };
 
 } // namespace qrh
 
@@ -140,9 +156,9 @@ bool run_qr_impl(unsigned seed, bool free) {
     Tensor<Rat,n,n> Q, R, PM; Tensor<size_t,n> PV;
     for (size_t i = 0; i < n * n; ++i) { Q.data()[i] = Rat(77); R.data()[i] = Rat(77); PM.data()[i] = Rat(77); }
     for (size_t i = 0; i < n; ++i) PV.data()[i] = 77;
-    const bool piv = S >= S_PIVV, pmat = S >= S_PIVM;
+    const bool piv = is_piv(S), pmat = is_pmat(S);
     char hdr[256];
-    std::snprintf(hdr, sizeof hdr, "qr cfg=%s n=%zu strat=%s seed=%u free=%d A=", CFGNAME, n, SNAME[S], seed, free ? 1 : 0);
+    std::snprintf(hdr, sizeof hdr, "qr cfg=%s n=%zu strat=%s seed=%u free=%d dsign=%d A=", CFGNAME, n, SNAME[S], seed, free ? 1 : 0, free ? 0 : g_detsign);
     g_hdr = std::string(hdr) + join(A0) + " | ";
     std::string line = g_hdr;
     Rat det(0);
@@ -180,8 +196,20 @@ bool run_qr_impl(unsigned seed, bool free) {
         }
     }
     std::string ps; for (size_t i = 0; i < n; ++i) { if (i) ps += ","; ps += std::to_string(perm[i]); }
+    // coverage observables of the pivot: longest cycle of P (>= 3: P is not an involution) and whether some column's
+    // search met a tie for the maximal |A(i,j)|
+    size_t pcyc = 1; int tie = 0;
+    if (piv) {
+        pcyc = 0;
+        for (size_t i = 0; i < n; ++i) { size_t x = i, len = 0; for (size_t t = 0; t < n; ++t) { x = perm[x] < n ? perm[x] : 0; ++len; if (x == i) break; } if (len > pcyc) pcyc = len; }
+        for (size_t j = 0; j < n; ++j) {
+            Rat m(0); for (size_t i = j; i < n; ++i) if (m < std::abs(A0[i * n + j])) m = std::abs(A0[i * n + j]);
+            size_t c = 0; for (size_t i = j; i < n; ++i) if (std::abs(A0[i * n + j]) == m) ++c;
+            if (c >= 2) tie = 1;
+        }
+    }
     RM Qv = flat(Q, n * n), Rv = flat(R, n * n);
-    line += "Q=" + join(Qv) + " R=" + join(Rv) + " P=" + ps + " DET=" + det.str() + " NSQ=" + std::to_string(nsq) + " SQC=" + std::to_string(sqc);
+    line += "PCYC=" + std::to_string(pcyc) + " TIE=" + std::to_string(tie) + " Q=" + join(Qv) + " R=" + join(Rv) + " P=" + ps + " DET=" + det.str() + " NSQ=" + std::to_string(nsq) + " SQC=" + std::to_string(sqc);
 
     // ---- oracle (independent of the model)
     std::string why;
